@@ -1,7 +1,7 @@
 (* The line protocol: one case line in, one canonical result line out. *)
 From Coq Require Import String.
 From TlsModel Require Export Entries.
-From TlsModel Require Import Consts SpecEntries StatesEntry States Flows NtEntry DefragEntry SerEntry HelloEntry.
+From TlsModel Require Import Consts SpecEntries StatesEntry States Flows NtEntry DefragEntry SerEntry HelloEntry ExtTag.
 
 Definition all_entries : list (string * entry_fn) := entries_tls ++ entries_ext ++ entries_kx ++ entries_dtls ++ spec_entries_tls.
 
@@ -38,6 +38,8 @@ Definition run_line (line : list byte) : list byte :=
       if beq_bytes name (str "spec.@from_name") then spec_from_name_line rest else
       if beq_bytes name (str "@cipher") then run_cipher_line rest else
       if beq_bytes name (str "spec.@cipher") then spec_cipher_line rest else
+      if beq_bytes name (str "@exttype") then run_exttype_line rest else
+      if beq_bytes name (str "spec.@exttype") then spec_exttype_line rest else
       if beq_bytes name (str "@keybits") then run_keybits_line rest else
       if beq_bytes name (str "spec.@keybits") then spec_keybits_line rest else
       match find_entry name all_entries with
